@@ -41,6 +41,7 @@ from pdfminer.pdftypes import (
     dict_value,
     int_value,
     list_value,
+    resolve1,
     str_value,
     stream_value,
     uint_value,
@@ -279,12 +280,23 @@ class PDFXRefStream(PDFBaseXRef):
         (_, stream) = parser.nextobject()
         if not isinstance(stream, PDFStream) or stream.get("Type") is not LITERAL_XREF:
             raise PDFNoValidXRef("Invalid PDF stream spec.")
-        size = stream["Size"]
-        index_array = stream.get("Index", (0, size))
+        size = resolve1(stream.get("Size"))
+        index_array = resolve1(stream.get("Index", (0, size)))
+        widths = resolve1(stream.get("W"))
+        if (
+            not isinstance(index_array, (list, tuple))
+            or not all(isinstance(resolve1(v), int) for v in index_array)
+            or not isinstance(widths, (list, tuple))
+            or len(widths) != 3
+            or not all(isinstance(resolve1(v), int) for v in widths)
+            or min(resolve1(v) for v in widths) < 0
+        ):
+            raise PDFNoValidXRef("Invalid /Size, /Index or /W in a cross-reference stream")
+        index_array = [resolve1(v) for v in index_array]
         if len(index_array) % 2 != 0:
             raise PDFSyntaxError("Invalid index number")
         self.ranges.extend(cast(Iterator[Tuple[int, int]], choplist(2, index_array)))
-        (self.fl1, self.fl2, self.fl3) = stream["W"]
+        (self.fl1, self.fl2, self.fl3) = (resolve1(v) for v in widths)
         assert self.fl1 is not None and self.fl2 is not None and self.fl3 is not None
         self.data = stream.get_data()
         self.entlen = self.fl1 + self.fl2 + self.fl3
